@@ -7,7 +7,8 @@
    segments, in the result monad:
      - names level   : items are segment names, a "parsed segment" is the upper-cased name, no
                        admission checks                         (find_groups_names)
-     - segment level : items are the CR-separated pieces of the message text, segments are
+     - segment level : items are the CR-separated pieces of the message text, stripped, the blank
+                       ones skipped (parser.py strips the piece BEFORE taking its name), segments are
                        parsed by Model/Parser.parse_segment with the reference found, groups are
                        accepted by Group._is_valid_child / ElementList._can_add_child
                                                                 (parse_segments_grouped)
@@ -418,10 +419,14 @@ Definition child_admission (is_msg : bool) (pname : option str) (st : option str
 Definition group_admission (p : str * sref * structure) (have : list str) (child : str) : result unit :=
   match p with (n, _, st) => child_admission false (Some n) (Some st) have child end.
 
-(* the non-empty pieces of text.split('\r') *)
+(* `for s in text.split('\r'): s = s.strip(); if len(s) > 0: ...` : the pieces of the text, each
+   STRIPPED first, those that are empty after stripping skipped.  The segment name used by the group
+   search is the first three characters of the stripped piece (take 3 below), so LF after CR, blank
+   lines and blank-padded lines do not influence the result. *)
 Definition pieces (text : str) : list str :=
-  filter (fun s => match s with [] => false | _ => true end) (bsplit CR text).
+  filter (fun s => match s with [] => false | _ => true end) (map strip (bsplit CR text)).
 
+(* parse_segment(s.strip(), ...) : the second strip of the (already stripped) piece is a no-op *)
 Definition seg_of_piece (s : str) (r : option sref) : result seg :=
   parse_segment t lvl e leaf_enc (strip s) r.
 
